@@ -67,7 +67,7 @@ def run(tier):
     if not ck.add_mc("JlsApiGen MaxCalls=4 (omission in the contract)", r):
         ck.violation({"where": "model", "config": "JlsApiGen_mc", "invariant": r.violated})
     P = []
-    n = 500 if thorough else 130
+    n = 10000 if thorough else 130
     for i in range(n):
         p, model = progs.gen_writer_program(rng, i + 1, kind="c15", nsig=rng.choice([1, 1, 2]), gaps=(i % 4 == 0), overlaps=False, omit=True,
                                             annos=False, utc=False, userdata=False, late_defs=False, maxlen=12000 if thorough else 5000,
@@ -98,7 +98,7 @@ def run(tier):
         p["model"] = progs.model_json(model)
         P.append(p)
     for dt in ["u1", "u4", "u8", "i4", "i8"]:
-        for k in range(12 if thorough else 4):
+        for k in range(60 if thorough else 4):
             P.append(const_block_program(rng, len(P) + 1, dt))
     trace, v, other = apicheck.run_api(ck, P, "c15", {"C15", "C01"})
     nz = sum(1 for l in open(trace) if l.startswith('{"e":"IdxZeros"') and '"zeros":[]' not in l)
